@@ -54,6 +54,7 @@ type Contract struct {
 	MayPanic bool
 	Trusted  bool
 	Inline   bool
+	macros   []*macro
 	Terminates bool
 	Pure     bool
 	Expect   map[string]bool
@@ -276,14 +277,20 @@ func (cs *ContractSet) loadFile(path string, pkgPath string) error {
 		head := f[0]
 		rest := strings.TrimSpace(ln[len(head):])
 		switch head {
-		case "func", "ext", "iface":
+		case "func", "ext", "iface", "extlocal":
+			// extlocal: an assumed contract of an external function that holds for the calls made
+			// from this package only (e.g. json.Unmarshal into one particular target type)
+			local := head == "extlocal"
+			if local {
+				head = "ext"
+			}
 			cur = &Contract{Key: rest, Kind: head, File: path, Pkg: pkgPath}
 			k := "ext::" + rest
 			if head == "func" {
 				k = pkgPath + "::" + rest
 			}
 			// callback contracts are named after a parameter: scoped to the package of the contract file
-			if head == "ext" && strings.HasPrefix(rest, "callback:") && pkgPath != "" {
+			if head == "ext" && (strings.HasPrefix(rest, "callback:") || local) && pkgPath != "" {
 				k = "ext::" + rest + "@" + pkgPath
 			}
 			if old, ok := cs.ByKey[k]; ok {
@@ -316,6 +323,25 @@ func (cs *ContractSet) loadFile(path string, pkgPath string) error {
 		}
 		if cur == nil {
 			return fmt.Errorf("%s: clause outside contract: %q", path, ln)
+		}
+		// macro NAME(a, b) := text   -- textual abbreviation inside this contract; expanded in every
+		// later clause before it is parsed (NAME(x, y) -> text with a := x, b := y)
+		if head == "macro" {
+			m, err := parseMacro(rest)
+			if err != nil {
+				return fmt.Errorf("%s: %s: %v", path, cur.Key, err)
+			}
+			cur.macros = append(cur.macros, m)
+			continue
+		}
+		if len(cur.macros) > 0 {
+			var err error
+			ln, err = expandMacros(ln, cur.macros)
+			if err != nil {
+				return fmt.Errorf("%s: %s: %v", path, cur.Key, err)
+			}
+			f = strings.Fields(ln)
+			rest = strings.TrimSpace(ln[len(head):])
 		}
 		mk := func(kind, body string) (*Clause, error) {
 			name, ex := splitName(body)
@@ -518,4 +544,121 @@ func loadContracts(repo string, specDir string) (*ContractSet, error) {
 		}
 	}
 	return cs, nil
+}
+
+type macro struct {
+	Name   string
+	Params []string
+	Body   string
+}
+
+func parseMacro(rest string) (*macro, error) {
+	i := strings.Index(rest, ":=")
+	if i < 0 {
+		return nil, fmt.Errorf("bad macro %q", rest)
+	}
+	headPart, body := strings.TrimSpace(rest[:i]), strings.TrimSpace(rest[i+2:])
+	o := strings.Index(headPart, "(")
+	if o < 0 || !strings.HasSuffix(headPart, ")") {
+		return nil, fmt.Errorf("bad macro head %q", headPart)
+	}
+	m := &macro{Name: strings.TrimSpace(headPart[:o]), Body: body}
+	for _, p := range strings.Split(headPart[o+1:len(headPart)-1], ",") {
+		if p = strings.TrimSpace(p); p != "" {
+			m.Params = append(m.Params, p)
+		}
+	}
+	return m, nil
+}
+
+func isIdentByte(c byte) bool {
+	return c == '_' || c >= '0' && c <= '9' || c >= 'a' && c <= 'z' || c >= 'A' && c <= 'Z'
+}
+
+// replaceIdent replaces whole-identifier occurrences of name (not preceded by '.') by val
+func replaceIdent(s, name, val string) string {
+	var out strings.Builder
+	for i := 0; i < len(s); {
+		if strings.HasPrefix(s[i:], name) && (i == 0 || !isIdentByte(s[i-1]) && s[i-1] != '.') && (i+len(name) == len(s) || !isIdentByte(s[i+len(name)])) {
+			out.WriteString(val)
+			i += len(name)
+			continue
+		}
+		out.WriteByte(s[i])
+		i++
+	}
+	return out.String()
+}
+
+func expandMacros(s string, ms []*macro) (string, error) {
+	for round := 0; round < 20; round++ {
+		changed := false
+		for _, m := range ms {
+			for {
+				idx := -1
+				for i := 0; i+len(m.Name) < len(s); i++ {
+					if strings.HasPrefix(s[i:], m.Name+"(") && (i == 0 || !isIdentByte(s[i-1]) && s[i-1] != '.') {
+						idx = i
+						break
+					}
+				}
+				if idx < 0 {
+					break
+				}
+				// arguments up to the matching parenthesis, split at top-level commas
+				depth, start := 0, idx+len(m.Name)+1
+				var args []string
+				last, end := start, -1
+				inStr := false
+				for j := start - 1; j < len(s); j++ {
+					ch := s[j]
+					if ch == '"' {
+						inStr = !inStr
+					}
+					if inStr {
+						continue
+					}
+					switch ch {
+					case '(', '[':
+						depth++
+					case ')', ']':
+						depth--
+						if depth == 0 {
+							end = j
+						}
+					case ',':
+						if depth == 1 {
+							args = append(args, strings.TrimSpace(s[last:j]))
+							last = j + 1
+						}
+					}
+					if end >= 0 {
+						break
+					}
+				}
+				if end < 0 {
+					return "", fmt.Errorf("macro %s: unbalanced parentheses", m.Name)
+				}
+				if t := strings.TrimSpace(s[last:end]); t != "" || len(args) > 0 {
+					args = append(args, t)
+				}
+				if len(args) != len(m.Params) {
+					return "", fmt.Errorf("macro %s: %d arguments, want %d", m.Name, len(args), len(m.Params))
+				}
+				body := m.Body
+				for k, p := range m.Params {
+					body = replaceIdent(body, p, "\x00"+fmt.Sprint(k)+"\x00")
+				}
+				for k := range m.Params {
+					body = strings.ReplaceAll(body, "\x00"+fmt.Sprint(k)+"\x00", "("+args[k]+")")
+				}
+				s = s[:idx] + "(" + body + ")" + s[end+1:]
+				changed = true
+			}
+		}
+		if !changed {
+			return s, nil
+		}
+	}
+	return "", fmt.Errorf("macro expansion does not terminate")
 }
